@@ -36,7 +36,7 @@ ASSUMPTIONS = ['generic-group model of sx/algebra.py: points are discrete logs m
 EXPLANATION = ('the four adapter instructions, clamp_scalar, H_small, sign_with_scalar and the adapter builders are executed from the real '
                'source over the group-algebra stubs; identities are unsat queries: check passes, decryption yields (R+T, sa+t) which satisfies '
                'the RFC 8032 verification equation under X, t = s - sa mod L, altered sa fails, adapter / wrong scalar do not verify')
-MUST_REACH = ['public_check', 'decrypt_valid', 'recover_t', 'sa_altered', 'private_done', 'builders_ok', 'tweaked_ptlc']
+MUST_REACH = ['tweak_validity_ok', 'tweak_validity_rejected', 'public_check', 'decrypt_valid', 'recover_t', 'sa_altered', 'private_done', 'builders_ok', 'tweaked_ptlc']
 
 
 def _setup(c, mlen):
@@ -384,6 +384,57 @@ def _fallback(params, rng):
             'sa_altered': rng.randbytes(32)}
 
 
+def h_tweak_validity(c, pkg, which, mlen=2):
+    """the tweak point handed to OP_CHECK_ADAPTER_SIG / OP_MAKE_ADAPTER_SIG_PUBLIC is arbitrary bytes: a verdict / an adapter is
+    produced only for a valid point (with the neutral element as tweak the "adapter" is an ordinary signature)"""
+    F, C = pkg.functions, pkg.classes
+    seed, m, t = _setup(c, mlen)
+    T = c.bytes('T', 32)
+    with algebra.XorShortcut(pkg):
+        valid_T = mk_bool(algebra._validpt(algebra.point_int(T)))
+        if which == 'check':
+            X = c.bytes('X', 32)
+            R = c.bytes('R', 32)
+            algebra.mark_point(X)
+            algebra.mark_point(R)
+            sa = c.bytes('sa', 32)
+            r = outcome_of(_check_adapter, pkg, X, T, m, R, sa)
+            if r[0] == 'ok':
+                c.check('no_verdict_for_an_invalid_tweak_point', valid_T, verdict=r[1][0])
+                c.reach('tweak_validity_ok')
+            else:
+                c.reach('tweak_validity_rejected')
+        else:
+            r = outcome_of(_make_public, pkg, seed, m, T)
+            if r[0] == 'ok':
+                c.check('no_adapter_for_an_invalid_tweak_point', valid_T)
+                c.reach('tweak_validity_ok')
+            else:
+                c.reach('tweak_validity_rejected')
+
+
+def r_tweak_validity(inputs, params, obligation):
+    """the invalid-but-decodable point of the model is the neutral element: replay with its real encoding"""
+    import tapescript
+    import tapescript.functions as RF
+    from nacl.signing import SigningKey
+    T0 = b'\x01' + bytes(31)
+    m = inputs.get('m', b'mm')
+    sk = SigningKey(inputs.get('seed', bytes(32)))
+    X = bytes(sk.verify_key)
+    st = tapescript.Stack()
+    if params['which'] == 'check':
+        sig = sk.sign(m).signature
+        for it in (sig[32:], sig[:32], m, T0, X):
+            st.put(it)
+        r = outcome_of(RF.OP_CHECK_ADAPTER_SIG, tapescript.Tape(b''), st, {})
+    else:
+        for it in (inputs.get('seed', bytes(32)), m, T0):
+            st.put(it)
+        r = outcome_of(RF.OP_MAKE_ADAPTER_SIG_PUBLIC, tapescript.Tape(b''), st, {})
+    return {'reproduced': r[0] == 'ok', 'outcome': repr(r)[:160], 'stack': [x.hex() for x in st.list()][:3]}
+
+
 def _ml(tier):
     return (0, 2, 3) if tier == 'quick' else (0, 1, 2, 3, 8)
 
@@ -396,5 +447,7 @@ HARNESSES = [
     HarnessSpec('builders', h_builders, lambda t: ([{'variant': 'pub', 'lite': True}, {'variant': 'prv', 'lite': True}] if t == 'quick' else
                                                    [{'variant': 'pub'}, {'variant': 'prv'}]),
                 replay=r_builders, signature=_sig, fallback=_fallback),
+    HarnessSpec('tweak_validity', h_tweak_validity, [{'which': 'check'}, {'which': 'make'}], replay=r_tweak_validity, signature=_sig,
+                fallback=lambda p, rng: {'seed': rng.randbytes(32), 'm': rng.randbytes(2)}),
     HarnessSpec('ptlc_tweak', h_ptlc_tweak, replay=r_tweak, signature=_sig, fallback=lambda p, rng: {**_fallback(p, rng), 'refund': rng.randbytes(32)}),
 ]
